@@ -272,4 +272,41 @@ impl MaybeDynSized for FramebufferTag {
 //@end
 }
 
+// ---------------------------------------------------------------------------
+// C05 / C17: the string accessors hand EXACTLY the declared string bytes (the DST tail, whose
+// length is dst_len = size - fixed part) to the parser.  `parse_slice_as_string` is core-library
+// code (CStr / UTF-8; bounded Kani harnesses): here it is an uninterpreted function of the bytes
+// it is given, so a result computed from any other byte sequence (the padded payload, a longer
+// or shorter slice) cannot be proved equal to it.
+// ---------------------------------------------------------------------------
+pub struct StringError { pub _opaque: u8 }   // stand-in for multiboot2::StringError (never inspected)
+pub uninterp spec fn spec_parse_str(bytes: Seq<u8>) -> Result<&'static str, StringError>;
+
+#[verifier::external_body]
+pub fn parse_slice_as_string(bytes: &[u8]) -> (r: Result<&str, StringError>)
+    ensures r == spec_parse_str(bytes@),
+{ unimplemented!() }
+
+impl CommandLineTag {
+//@extract multiboot2/src/command_line.rs :: impl CommandLineTag :: fn cmdline
+//@  ret r
+//@  spec:
+//@    ensures r == spec_parse_str(self.cmdline@),
+//@end
+}
+impl BootLoaderNameTag {
+//@extract multiboot2/src/boot_loader_name.rs :: impl BootLoaderNameTag :: fn name
+//@  ret r
+//@  spec:
+//@    ensures r == spec_parse_str(self.name@),
+//@end
+}
+impl ModuleTag {
+//@extract multiboot2/src/module.rs :: impl ModuleTag :: fn cmdline
+//@  ret r
+//@  spec:
+//@    ensures r == spec_parse_str(self.cmdline@),
+//@end
+}
+
 } // verus!
